@@ -476,7 +476,11 @@ func (fr *Frame) callByContract(ct *Contract, callee *ssa.Function, sig *types.S
 	}
 	for _, rq := range ct.Requires {
 		g := env.evalBool(rq.Expr)
-		if !u.active(rq.Props) {
+		// a library panic guard at an application call site is not an obligation of the caller
+		// (the applications' well-formedness facts about messages are not carried across channels;
+		// DESIGN.md 11.3): treated as under the properties where C07 clauses are inactive
+		appToLib := !inRtcm(fr.fn.String()) && inRtcm(key) && len(rq.Props) == 1 && rq.Props[0] == "C07" && u.prop != "C07"
+		if !u.active(rq.Props) || appToLib {
 			if !contains(rq.Props, "C07") {
 				continue // functional precondition of clauses that are not relied upon under this property
 			}
